@@ -21,6 +21,12 @@ KERNELS = {
                            "fee payment = apr * dt * value / SECONDS_PER_YEAR"),
     "calc_value": ({"name": "calc_value", "crate": "marginfi"}, ["phi(Result::Ok{0}|Result::Ok{checked_div(checked_mul(p2,phi(checked_mul(p1,p4)|p1)),EXP_10_I80F48[p3])})"],
                    "value = amount [* weight] * price / 10^decimals"),
+    "health-components": ({"name": "get_account_health_components", "crate": "marginfi", "self_adt": "RiskEngine"},
+                          ["Result::Ok{tuple{phi(0|checked_add(calc_weighted_value(next(into_iter(enumerate(iter(p1.bank_accounts_with_price)))).1,to_weight_type(p2),p1.emode_config).0,loop)),phi(0|checked_add(calc_weighted_value(next(into_iter(enumerate(iter(p1.bank_accounts_with_price)))).1,to_weight_type(p2),p1.emode_config).1,loop))}}"],
+                          "(assets, liabilities) = (sum of component 0, sum of component 1) of calc_weighted_value over every balance, weighted for the requirement's weight type with the account's reconciled e-mode config"),
+    "calc_weighted_value": ({"name": "calc_weighted_value", "crate": "marginfi", "self_adt": "BankAccountWithPriceFeed"},
+                            ["phi(Result::Ok{tuple{0,0,0,0}}|Result::Ok{tuple{0,calc_weighted_liab_value(p1,p2,load(p1.bank)).0,calc_weighted_liab_value(p1,p2,load(p1.bank)).1,0}}|Result::Ok{tuple{calc_weighted_asset_value(p1,p2,load(p1.bank),p3).0,0,calc_weighted_asset_value(p1,p2,load(p1.bank),p3).1,calc_weighted_asset_value(p1,p2,load(p1.bank),p3).2}})"],
+                            "(asset value, liability value, price, error) = (asset valuation, 0, ..) for a deposit, (0, liability valuation, ..) for a debt, zeros for an empty balance"),
     "calc_amount": ({"name": "calc_amount", "crate": "marginfi"}, ["Result::Ok{checked_div(checked_mul(EXP_10_I80F48[p3],p1),p2)}"], "amount = value * 10^decimals / price"),
     "calculate_max_leverage": ({"name": "calculate_max_leverage", "crate": "marginfi"}, ["phi(Result::Err{MarginfiError::BadEmodeConfig{}}|Result::Ok{checked_div(%s,sub(%s,checked_div(p1,p2)))})" % (ONE, ONE)],
                                "max leverage = 1 / (1 - asset_weight / liability_weight)"),
